@@ -54,14 +54,14 @@ Section JWT.
     intros. unfold parse1. rewrite andb_true_iff, sig_ok_spec, time_ok_spec. tauto.
   Qed.
 
-  Lemma try_two : forall (h : history) now t a b,
-    snd (if parse1 mac now a t then (bump a h, true)
-         else if parse1 mac now b t then (bump b h, true) else (h, false))
+  Lemma try_two : forall rs (h : history) now t a b,
+    snd (if parse1 mac now a t then (count_hit rs a h, true)
+         else if parse1 mac now b t then (count_hit rs b h, true) else (h, false))
     = parse1 mac now a t || parse1 mac now b t.
   Proof. intros. destruct (parse1 mac now a t); destruct (parse1 mac now b t); reflexivity. Qed.
 
-  Lemma parse_token_bool : forall h c now t,
-    snd (parse_token mac h c now t) =
+  Lemma parse_token_bool : forall rs h c now t,
+    snd (parse_token mac rs h c now t) =
     match jprev c with
     | Some p => parse1 mac now (jsecret c) t || parse1 mac now p t
     | None => parse1 mac now (jsecret c) t
@@ -72,10 +72,10 @@ Section JWT.
     apply orb_comm.
   Qed.
 
-  Lemma parse_token_spec : forall h c now t,
-    snd (parse_token mac h c now t) = true <-> Valid c now t.
+  Lemma parse_token_spec : forall rs h c now t,
+    snd (parse_token mac rs h c now t) = true <-> Valid c now t.
   Proof.
-    intros h c now t. rewrite parse_token_bool. unfold Valid, secrets.
+    intros rs h c now t. rewrite parse_token_bool. unfold Valid, secrets.
     destruct (jprev c) as [p|].
     - rewrite orb_true_iff, !parse1_spec. split.
       + intros [(A & B & C)|(A & B & C)]; (split; [exact A|split; [|exact C]]).
@@ -88,44 +88,51 @@ Section JWT.
   Qed.
 
   (* the decision never depends on the hit counters *)
-  Lemma parse_token_history_irrelevant : forall h h' c now t,
-    snd (parse_token mac h c now t) = snd (parse_token mac h' c now t).
+  Lemma parse_token_history_irrelevant : forall rs rs' h h' c now t,
+    snd (parse_token mac rs h c now t) = snd (parse_token mac rs' h' c now t).
   Proof.
-    intros. destruct (snd (parse_token mac h c now t)) eqn:E.
-    - apply parse_token_spec in E. symmetry. apply parse_token_spec. exact E.
-    - destruct (snd (parse_token mac h' c now t)) eqn:E'; auto.
-      apply parse_token_spec in E'. apply parse_token_spec with (h := h) in E'. congruence.
+    intros. rewrite !parse_token_bool. reflexivity.
   Qed.
 
   Definition Accepts (c : jcfg) (now : Z) (cr : cred) : Prop :=
     exists t, cr = CToken t /\ Valid c now t.
 
-  Lemma authorize_ran : forall h c now cr,
-    jran (snd (authorize mac h c now cr)) = true <-> Accepts c now cr.
+  Lemma authorize_rs_ran : forall rs h c now cr,
+    jran (snd (authorize_rs mac rs h c now cr)) = true <-> Accepts c now cr.
   Proof.
-    intros h c now cr. unfold authorize, Accepts. destruct cr as [| |t].
+    intros rs h c now cr. unfold authorize_rs, Accepts. destruct cr as [| |t].
     - cbn. split; [discriminate|]. intros (t & E & _). discriminate.
     - cbn. split; [discriminate|]. intros (t & E & _). discriminate.
-    - pose proof (parse_token_spec h c now t) as P.
-      destruct (parse_token mac h c now t) as [h' ok]. cbn [snd] in P.
+    - pose proof (parse_token_spec rs h c now t) as P.
+      destruct (parse_token mac rs h c now t) as [h' ok]. cbn [snd] in P.
       destruct ok; cbn [snd jran unauthorized].
       + split; auto. intros _. exists t. split; auto. apply P; auto.
       + split; [discriminate|]. intros (t' & E & V). inversion E; subst t'.
         apply P in V. discriminate.
   Qed.
 
+  Lemma authorize_ran : forall h c now cr,
+    jran (snd (authorize mac h c now cr)) = true <-> Accepts c now cr.
+  Proof. intros. apply authorize_rs_ran. Qed.
+
+  Lemma authorize_rs_result : forall rs h c now cr,
+    let r := snd (authorize_rs mac rs h c now cr) in
+    (jran r = false -> r = unauthorized) /\
+    (forall t, cr = CToken t -> jran r = true -> jstatus r = 200 /\ jctx r = deliver t).
+  Proof.
+    intros rs h c now cr. unfold authorize_rs. destruct cr as [| |t]; cbn.
+    - split; auto. intros t E; discriminate.
+    - split; auto. intros t E; discriminate.
+    - destruct (parse_token mac rs h c now t) as [h' ok]. destruct ok; cbn.
+      + split; [discriminate|]. intros t' E _. inversion E; subst. auto.
+      + split; auto. intros t' _ D. discriminate.
+  Qed.
+
   Lemma authorize_result : forall h c now cr,
     let r := snd (authorize mac h c now cr) in
     (jran r = false -> r = unauthorized) /\
     (forall t, cr = CToken t -> jran r = true -> jstatus r = 200 /\ jctx r = deliver t).
-  Proof.
-    intros h c now cr. unfold authorize. destruct cr as [| |t]; cbn.
-    - split; auto. intros t E; discriminate.
-    - split; auto. intros t E; discriminate.
-    - destruct (parse_token mac h c now t) as [h' ok]. destruct ok; cbn.
-      + split; [discriminate|]. intros t' E _. inversion E; subst. auto.
-      + split; auto. intros t' _ D. discriminate.
-  Qed.
+  Proof. intros. apply authorize_rs_result. Qed.
 
   (* per-request statement lifted to every sequence of requests through one middleware
      instance, from every state of the hit counters *)
@@ -283,6 +290,7 @@ Proof.
 Qed.
 
 Section CS.
+  Variable ulfix : bool.
   Variable rsa_dec : Z -> Z -> option cs_secret.
   Variable cmac : Z -> content -> Z.
   Variable sha : list Z -> Z.
@@ -293,71 +301,73 @@ Section CS.
 
   (* "the signature covers exactly timestamp (within tolerance), method, path, query and
      body digest under a secret encrypted to a configured key", for path/query [pq] *)
-  Definition SignedRequest (decs : list Z) (tol now : Z) (r : cs_req) (pq : Z * Z) : Prop :=
-    exists fp sc sg sec key ct ts,
-      h_fp (r_hdr r) = Some fp /\ In fp decs /\
+  Definition SignedRequest (decs : list (Z * Z)) (tol now : Z) (r : cs_req) (pq : Z * Z) : Prop :=
+    exists fp kid sc sg sec key ct ts,
+      h_fp (r_hdr r) = Some fp /\ find_key fp decs = Some kid /\
       h_secret (r_hdr r) = Some sc /\ h_sig (r_hdr r) = Some sg /\
-      rsa_dec fp sc = Some sec /\ sk_key sec = Some key /\ sk_ctype sec = Some ct /\
+      rsa_dec kid sc = Some sec /\ sk_key sec = Some key /\ sk_ctype sec = Some ct /\
       sk_tsval sec = Some ts /\ now - tol <= ts <= now + tol /\
       sg = cmac key (sk_tsid sec, r_method r, fst pq, snd pq, sha (r_body r)).
 
   Lemma gate_pass_spec : forall strict decs tol now r,
     checked (r_method r) = true ->
-    (snd (cs_gate rsa_dec cmac sha strict decs tol now r) = None <->
+    (snd (cs_gate ulfix rsa_dec cmac sha strict decs tol now r) = None <->
      SignedRequest decs tol now r (path_query r)).
   Proof.
     intros strict decs tol now r Hc. unfold cs_gate, SignedRequest. rewrite Hc.
     unfold parse_cs.
     destruct (h_fp (r_hdr r)) as [fp|];
-      [|cbn; split; [discriminate|intros (?&?&?&?&?&?&?&X&_); discriminate]].
+      [|cbn; split; [discriminate|intros (?&?&?&?&?&?&?&?&X&_); discriminate]].
     destruct (h_secret (r_hdr r)) as [sc|];
-      [|cbn; split; [discriminate|intros (?&?&?&?&?&?&?&_&_&X&_); discriminate]].
+      [|cbn; split; [discriminate|intros (?&?&?&?&?&?&?&?&_&_&X&_); discriminate]].
     destruct (h_sig (r_hdr r)) as [sg|];
-      [|cbn; split; [discriminate|intros (?&?&?&?&?&?&?&_&_&_&X&_); discriminate]].
-    destruct (memz fp decs) eqn:M.
-    2:{ cbn. split; [discriminate|]. intros (fp'&?&?&?&?&?&?&X&I&_). inversion X; subst fp'.
-        apply memz_In in I. congruence. }
-    apply memz_In in M.
-    destruct (rsa_dec fp sc) as [sec|] eqn:R.
-    2:{ cbn. split; [discriminate|]. intros (fp'&sc'&?&?&?&?&?&X&_&Y&_&Z0&_).
-        inversion X; inversion Y; subst. congruence. }
+      [|cbn; split; [discriminate|intros (?&?&?&?&?&?&?&?&_&_&_&X&_); discriminate]].
+    destruct (find_key fp decs) as [kid|] eqn:M.
+    2:{ cbn. split; [discriminate|]. intros (fp'&?&?&?&?&?&?&?&X&I&_). inversion X; subst fp'.
+        congruence. }
+    destruct (rsa_dec kid sc) as [sec|] eqn:R.
+    2:{ cbn. split; [discriminate|]. intros (fp'&kid'&sc'&?&?&?&?&?&X&I&Y&_&Z0&_).
+        inversion X; inversion Y; subst. rewrite M in I. inversion I; subst. congruence. }
+    assert (Same : forall fp' kid' sc' sec', Some fp = Some fp' -> find_key fp' decs = Some kid' ->
+                     Some sc = Some sc' -> rsa_dec kid' sc' = Some sec' -> sec' = sec).
+    { intros fp' kid' sc' sec' X I Y Z0. inversion X; inversion Y; subst.
+      rewrite M in I. inversion I; subst. rewrite R in Z0. inversion Z0; auto. }
     destruct (sk_key sec) as [key|] eqn:K.
-    2:{ cbn. split; [discriminate|]. intros (fp'&sc'&?&sec'&?&?&?&X&_&Y&_&Z0&K'&_).
-        inversion X; inversion Y; subst. rewrite R in Z0. inversion Z0; subst. congruence. }
+    2:{ cbn. split; [discriminate|]. intros (fp'&kid'&sc'&?&sec'&?&?&?&X&I&Y&_&Z0&K'&_).
+        rewrite (Same _ _ _ _ X I Y Z0) in K'. congruence. }
     destruct (sk_ctype sec) as [ct|] eqn:C.
-    2:{ cbn. split; [discriminate|]. intros (fp'&sc'&?&sec'&?&?&?&X&_&Y&_&Z0&_&C'&_).
-        inversion X; inversion Y; subst. rewrite R in Z0. inversion Z0; subst. congruence. }
+    2:{ cbn. split; [discriminate|]. intros (fp'&kid'&sc'&?&sec'&?&?&?&X&I&Y&_&Z0&_&C'&_).
+        rewrite (Same _ _ _ _ X I Y Z0) in C'. congruence. }
     unfold verify.
     destruct (sk_tsval sec) as [ts|] eqn:T.
-    2:{ cbn. split; [discriminate|]. intros (fp'&sc'&?&sec'&?&?&?&X&_&Y&_&Z0&_&_&T'&_).
-        inversion X; inversion Y; subst. rewrite R in Z0. inversion Z0; subst. congruence. }
+    2:{ cbn. split; [discriminate|]. intros (fp'&kid'&sc'&?&sec'&?&?&?&X&I&Y&_&Z0&_&_&T'&_).
+        rewrite (Same _ _ _ _ X I Y Z0) in T'. congruence. }
     destruct ((ts + tol <? now) || (now + tol <? ts)) eqn:W.
-    { cbn. split; [discriminate|]. intros (fp'&sc'&?&sec'&?&?&ts'&X&_&Y&_&Z0&_&_&T'&B&_).
-      inversion X; inversion Y; subst. rewrite R in Z0. inversion Z0; subst.
-      rewrite T in T'. inversion T'; subst.
+    { cbn. split; [discriminate|]. intros (fp'&kid'&sc'&?&sec'&?&?&ts'&X&I&Y&_&Z0&_&_&T'&B&_).
+      rewrite (Same _ _ _ _ X I Y Z0) in T'. rewrite T in T'. inversion T'; subst.
       apply orb_true_iff in W. rewrite !Z.ltb_lt in W. lia. }
     apply orb_false_iff in W. rewrite !Z.ltb_ge in W.
     destruct (sg =? cmac key (sign_content sha sec r)) eqn:S.
     - cbn. split; auto. intros _. apply Z.eqb_eq in S.
-      exists fp, sc, sg, sec, key, ct, ts. repeat split; auto; lia.
+      exists fp, kid, sc, sg, sec, key, ct, ts. repeat split; auto; lia.
     - cbn. split; [discriminate|].
-      intros (fp'&sc'&sg'&sec'&key'&?&ts'&X&_&Y&Y2&Z0&K'&_&T'&B&S').
+      intros (fp'&kid'&sc'&sg'&sec'&key'&?&ts'&X&I&Y&Y2&Z0&K'&_&T'&B&S').
       apply Z.eqb_neq in S.
-      injection X as <-. injection Y as <-. injection Y2 as <-.
-      rewrite R in Z0. injection Z0 as <-. rewrite K in K'. injection K' as <-.
+      rewrite (Same _ _ _ _ X I Y Z0) in *. injection Y2 as <-.
+      rewrite K in K'. injection K' as <-.
       exfalso. apply S. exact S'.
   Qed.
 
   Lemma gate_action_spec : forall strict decs tol now r,
-    fst (cs_gate rsa_dec cmac sha strict decs tol now r) = ActReject ->
+    fst (cs_gate ulfix rsa_dec cmac sha strict decs tol now r) = ActReject ->
     strict = true /\ checked (r_method r) = true /\
-    snd (cs_gate rsa_dec cmac sha strict decs tol now r) <> None.
+    snd (cs_gate ulfix rsa_dec cmac sha strict decs tol now r) <> None.
   Proof.
     intros strict decs tol now r. unfold cs_gate, on_failure.
     destruct (checked (r_method r)); [|discriminate].
     destruct (parse_cs rsa_dec decs r) as [[[[key sec] ct] sg]|].
     - destruct (verify cmac sha now tol r key sec sg); cbn.
-      + destruct ((0 <? r_clen r) && (ct =? 1)); discriminate.
+      + destruct ((if ulfix then negb (r_clen r =? 0) else 0 <? r_clen r) && (ct =? 1)); discriminate.
       + destruct strict; [|discriminate]. intros _. repeat split; auto; discriminate.
       + destruct strict; [|discriminate]. intros _. repeat split; auto; discriminate.
       + destruct strict; [|discriminate]. intros _. repeat split; auto; discriminate.
@@ -366,8 +376,8 @@ Section CS.
 
   Lemma strict_failure_rejects : forall decs tol now r,
     checked (r_method r) = true ->
-    snd (cs_gate rsa_dec cmac sha true decs tol now r) <> None ->
-    fst (cs_gate rsa_dec cmac sha true decs tol now r) = ActReject.
+    snd (cs_gate ulfix rsa_dec cmac sha true decs tol now r) <> None ->
+    fst (cs_gate ulfix rsa_dec cmac sha true decs tol now r) = ActReject.
   Proof.
     intros decs tol now r Hc. unfold cs_gate, on_failure. rewrite Hc.
     destruct (parse_cs rsa_dec decs r) as [[[[key sec] ct] sg]|]; cbn; auto.
@@ -375,7 +385,7 @@ Section CS.
     intros X. exfalso. apply X. reflexivity.
   Qed.
 
-  Notation handler := (cs_handler rsa_dec cmac sha aes_ok E D b64enc b64dec).
+  Notation handler := (cs_handler ulfix rsa_dec cmac sha aes_ok E D b64enc b64dec).
 
   Lemma strict_ran_signed : forall decs tol now limit r resp,
     checked (r_method r) = true ->
@@ -384,8 +394,8 @@ Section CS.
   Proof.
     intros decs tol now limit r resp Hc Hr.
     apply (gate_pass_spec true); auto.
-    destruct (snd (cs_gate rsa_dec cmac sha true decs tol now r)) eqn:G; auto.
-    assert (F : fst (cs_gate rsa_dec cmac sha true decs tol now r) = ActReject).
+    destruct (snd (cs_gate ulfix rsa_dec cmac sha true decs tol now r)) eqn:G; auto.
+    assert (F : fst (cs_gate ulfix rsa_dec cmac sha true decs tol now r) = ActReject).
     { apply strict_failure_rejects; auto. congruence. }
     unfold cs_handler in Hr. rewrite F in Hr. cbn in Hr. discriminate.
   Qed.
@@ -396,7 +406,7 @@ Section CS.
     handler true decs tol now limit r resp = mkHout false 403 [] [] false.
   Proof.
     intros decs tol now limit r resp Hc Hn.
-    assert (F : fst (cs_gate rsa_dec cmac sha true decs tol now r) = ActReject).
+    assert (F : fst (cs_gate ulfix rsa_dec cmac sha true decs tol now r) = ActReject).
     { apply strict_failure_rejects; auto. intros G. apply Hn. apply (gate_pass_spec true); auto. }
     unfold cs_handler. rewrite F. reflexivity.
   Qed.
@@ -420,11 +430,12 @@ Section CS.
     intros decs tol now limit r r' resp Hc Hc' Hx Hx' S Hh Hd Inj.
     apply strict_unsigned_403; auto.
     unfold path_query. rewrite Hx'. cbn [fst snd].
-    intros (fp'&sc'&sg'&sec'&key'&ct'&ts'&A1&A2&A3&A4&A5&A6&A7&A8&A9&A10).
-    destruct S as (fp&sc&sg&sec&key&ct&ts&B1&B2&B3&B4&B5&B6&B7&B8&B9&B10).
+    intros (fp'&kid'&sc'&sg'&sec'&key'&ct'&ts'&A1&A2&A3&A4&A5&A6&A7&A8&A9&A10).
+    destruct S as (fp&kid&sc&sg&sec&key&ct&ts&B1&B2&B3&B4&B5&B6&B7&B8&B9&B10).
     cbn [fst snd] in B10, A10.
     rewrite Hh in A1, A3, A4. rewrite B1 in A1. rewrite B3 in A3. rewrite B4 in A4.
     injection A1 as <-. injection A3 as <-. injection A4 as A4.
+    rewrite B2 in A2. injection A2 as <-.
     rewrite B5 in A5. injection A5 as <-. rewrite B6 in A6. injection A6 as <-.
     rewrite <- A4, B10 in A10. apply Inj in A10. inversion A10. apply Hd. congruence.
   Qed.
@@ -439,7 +450,7 @@ Section CS.
 
   (* non-strict mode never blocks (by design) *)
   Lemma nonstrict_never_rejects : forall decs tol now r,
-    fst (cs_gate rsa_dec cmac sha false decs tol now r) <> ActReject.
+    fst (cs_gate ulfix rsa_dec cmac sha false decs tol now r) <> ActReject.
   Proof.
     intros decs tol now r F. apply gate_action_spec in F. destruct F as [F _]. discriminate.
   Qed.
